@@ -10,6 +10,7 @@ import (
 	"bufio"
 	"bytes"
 	"fmt"
+	"sort"
 	"strings"
 
 	"github.com/Fantom-foundation/lachesis-base/kvdb"
@@ -27,6 +28,7 @@ type crashRunner struct {
 	backend *memBackend
 	pool    *flushable.SyncedPool
 	flagged *flaggedproducer.Producer
+	batches map[string]kvdb.Batch
 }
 
 func newCrashRunner() Runner { return &crashRunner{} }
@@ -69,6 +71,7 @@ func (c *crashRunner) Step(line string) string {
 	if f[0] == "mode" {
 		c.mode = f[1]
 		c.j = &journal{}
+		c.batches = map[string]kvdb.Batch{}
 		c.backend = newMemBackend(c.j)
 		if c.mode == "pool" {
 			c.pool = flushable.NewSyncedPool(c.backend, flushIDKey)
@@ -81,7 +84,26 @@ func (c *crashRunner) Step(line string) string {
 		return "nomode"
 	}
 	from := len(c.j.ops)
+	if f[0] == "bput" || f[0] == "bdel" || f[0] == "bwrite" {
+		if c.batches[f[1]] == nil {
+			return "nobatch"
+		}
+	}
 	switch f[0] {
+	case "bnew": // explicit batch object: may live across flushes
+		c.batches[f[2]] = c.open(f[1]).NewBatch()
+	case "bput":
+		if err := c.batches[f[1]].Put(Unhex(argOf(f, "k")), Unhex(argOf(f, "v"))); err != nil {
+			return "err " + err.Error()
+		}
+	case "bdel":
+		if err := c.batches[f[1]].Delete(Unhex(argOf(f, "k"))); err != nil {
+			return "err " + err.Error()
+		}
+	case "bwrite":
+		if err := c.batches[f[1]].Write(); err != nil {
+			return "err " + err.Error()
+		}
 	case "open":
 		c.open(f[1])
 	case "put":
@@ -156,6 +178,53 @@ type crashGen struct {
 	exists map[string]bool // DB exists durably
 	queued map[string]bool // pool: drop queued
 	nextID int
+	batch  map[string]string // live batch id -> DB
+	style  map[string]int    // 0 mixed, 1 only empty-valued puts, 2 only deletes
+	nextB  int
+}
+
+func (g *crashGen) sortedBatches() []string {
+	ids := make([]string, 0, len(g.batch))
+	for b := range g.batch {
+		ids = append(ids, b)
+	}
+	sort.Strings(ids)
+	return ids
+}
+
+// forget drops the batches of a DB whose store object is gone (or doomed).
+func (g *crashGen) forget(db string) {
+	for b, d := range g.batch {
+		if d == db {
+			delete(g.batch, b)
+		}
+	}
+}
+
+// batchOp emits one operation on explicit batch objects.
+func (g *crashGen) batchOp(name string) {
+	ids := g.sortedBatches()
+	if len(ids) == 0 || g.r.Chance(1, 4) {
+		g.nextB++
+		b := fmt.Sprintf("b%d", g.nextB)
+		g.batch[b], g.style[b] = name, g.r.Intn(3)
+		fmt.Fprintf(g.w, "bnew %s %s\n", name, b)
+		return
+	}
+	b := ids[g.r.Intn(len(ids))]
+	switch x := g.r.Intn(5); {
+	case x < 3:
+		switch st := g.style[b]; {
+		case st == 2 || (st == 0 && g.r.Chance(1, 4)):
+			fmt.Fprintf(g.w, "bdel %s k=%s\n", b, g.key())
+		case st == 1 || g.r.Chance(1, 4):
+			fmt.Fprintf(g.w, "bput %s k=%s v=-\n", b, g.key())
+		default:
+			fmt.Fprintf(g.w, "bput %s k=%s v=%s\n", b, g.key(), g.val())
+		}
+	default:
+		fmt.Fprintf(g.w, "bwrite %s\n", b)
+	}
 }
 
 func (g *crashGen) key() string { return HexOf([]byte{byte(g.r.Intn(3)), byte('a' + g.r.Intn(2))}[:1+g.r.Intn(2)]) }
@@ -164,6 +233,7 @@ func (g *crashGen) val() string { return HexOf([]byte{byte(g.r.Intn(256))}) }
 func (g *crashGen) flush() {
 	if g.mode == "pool" {
 		for n := range g.queued {
+			g.forget(n) // the flushable of a dropped DB is closed by the flush
 			delete(g.opened, n)
 			delete(g.exists, n)
 		}
@@ -178,7 +248,8 @@ func (g *crashGen) flush() {
 
 func genCrash(r *Rand, n int, tier string, w *bufio.Writer) {
 	for c := 0; c < n; c++ {
-		g := &crashGen{r: r, w: w, opened: map[string]bool{}, exists: map[string]bool{}, queued: map[string]bool{}}
+		g := &crashGen{r: r, w: w, opened: map[string]bool{}, exists: map[string]bool{}, queued: map[string]bool{},
+			batch: map[string]string{}, style: map[string]int{}}
 		g.mode = []string{"pool", "flagged"}[r.Intn(2)]
 		fmt.Fprintf(w, "# case %d\nmode %s\n", c, g.mode)
 		names := []string{"a", "b", "c"}[:1+r.Intn(3)]
@@ -196,7 +267,11 @@ func genCrash(r *Rand, n int, tier string, w *bufio.Writer) {
 				}
 				continue
 			}
-			switch x := r.Intn(20); {
+			switch x := r.Intn(27); {
+			case x >= 20:
+				g.batchOp(name)
+			case x < 1:
+				fmt.Fprintf(w, "put %s k=%s v=-\n", name, g.key())
 			case x < 8:
 				fmt.Fprintf(w, "put %s k=%s v=%s\n", name, g.key(), g.val())
 			case x < 10:
@@ -209,6 +284,7 @@ func genCrash(r *Rand, n int, tier string, w *bufio.Writer) {
 				}
 			case x < 15:
 				fmt.Fprintf(w, "drop %s\n", name)
+				g.forget(name)
 				if g.mode == "pool" {
 					g.queued[name] = true
 				} else {
